@@ -10,6 +10,7 @@ import ast
 
 from ..core.astutil import u, call_name, const, index_elts, dot_args, ncmp, compare_triples, resolved
 from ..core.index import AnalysisError
+from ..core.inline import expand_helpers
 
 G = "distance3d.geometry"
 POS_PARAMS = ("radius", "length", "height", "radii", "half_lengths", "size")
@@ -164,7 +165,7 @@ class SignAlign:
                 return [T(1, ("d", k))]
         if isinstance(e, ast.BinOp) and isinstance(e.op, (ast.Mult, ast.Div)):
             for x, y in ((e.left, e.right), (e.right, e.left)):
-                cx = self.comp(x, p) if isinstance(x, ast.Subscript) else None
+                cx = self.comp(x, p) if (isinstance(x, ast.Subscript) or (isinstance(x, ast.Name) and p.env.get(x.id) and p.env[x.id][0] == "comp")) else None
                 if cx and (x is e.left or isinstance(e.op, ast.Mult)):
                     s = self.sc(y, p)
                     return self._scale([cx], s)[0]
@@ -193,14 +194,23 @@ class SignAlign:
 
     def _facts_from_test(self, test, p, positive):
         """apply the facts of a test to path p (in place)"""
+        if isinstance(test, ast.UnaryOp) and isinstance(test.op, ast.Not):
+            return self._facts_from_test(test.operand, p, not positive)
+        if isinstance(test, ast.Compare) and len(test.ops) == 1 and isinstance(test.ops[0], ast.NotEq):
+            return self._facts_from_test(ast.copy_location(ast.Compare(left=test.left, ops=[ast.Eq()], comparators=test.comparators), test), p, not positive)
         n = ncmp(test)
+        if n is None and isinstance(test, ast.Compare) and len(test.ops) == 1 and isinstance(test.ops[0], ast.Eq):
+            n = ("==", test.left, test.comparators[0])
         if n is None:
             return
         op, a, b = n
-        # D[k] < 0  /  0 < D[k] ...
+        # D[k] < 0  /  0 < D[k] ...   (D[k] itself or a name bound to it)
         def dk(x):
             if isinstance(x, ast.Subscript) and isinstance(x.value, ast.Name) and x.value.id == self.dname and isinstance(const(x.slice), int):
                 return const(x.slice)
+            if isinstance(x, ast.Name) and p.env.get(x.id) and p.env[x.id][0] == "comp" and len(p.env[x.id][1]) == 1 \
+                    and p.env[x.id][1][0].base != "c" and p.env[x.id][1][0].sgn == 1:
+                return p.env[x.id][1][0].base[1]
             return None
         ka, kb = dk(a), dk(b)
         if ka is not None and const(b) in (0, 0.0):
@@ -237,10 +247,30 @@ class SignAlign:
                 for q in outb:
                     q.env["__proj"] = ("apex" if rim_on_true else "rim", cand, k, hname, st)
             return outa + outb
+        if isinstance(st, ast.Assign) and len(st.targets) == 1 and isinstance(st.targets[0], ast.Tuple) and isinstance(st.value, ast.Tuple) \
+                and len(st.targets[0].elts) == len(st.value.elts):
+            # x, y = d[0], d[1]: one assignment per element (no element reads a name bound by the same statement)
+            out = [p]
+            for t_, v_ in zip(st.targets[0].elts, st.value.elts):
+                nxt = []
+                for q in out:
+                    nxt.extend(self._stmt(ast.copy_location(ast.Assign(targets=[t_], value=v_), st), q))
+                out = nxt
+            return out
+        if isinstance(st, ast.Assign) and len(st.targets) == 1 and isinstance(st.value, ast.IfExp):
+            a, b = p.fork(), p.fork()
+            self._facts_from_test(st.value.test, a, True)
+            self._facts_from_test(st.value.test, b, False)
+            return self._stmt(ast.copy_location(ast.Assign(targets=st.targets, value=st.value.body), st), a) + \
+                self._stmt(ast.copy_location(ast.Assign(targets=st.targets, value=st.value.orelse), st), b)
         if isinstance(st, ast.Assign) and len(st.targets) == 1:
             t = st.targets[0]
             if isinstance(t, ast.Name) and t.id == self.dname and dot_args(st.value) is not None:
                 return [p]       # the definition of the local direction itself
+            if isinstance(t, ast.Name) and isinstance(st.value, ast.Subscript) and isinstance(st.value.value, ast.Name) and st.value.value.id == self.dname \
+                    and isinstance(const(st.value.slice), int):
+                p.env[t.id] = ("comp", [T(1, ("d", const(st.value.slice)))])      # x = d[0]
+                return [p]
             if isinstance(t, ast.Name):
                 val = st.value
                 p.env.pop("__alias_" + t.id, None)
@@ -425,7 +455,12 @@ def r_signalign(idx, rep, rule="R-SIGNALIGN"):
     names = ["support_function_cylinder", "support_function_capsule", "support_function_ellipsoid", "support_function_box",
              "support_function_sphere", "support_function_disk", "support_function_ellipse", "support_function_cone"]
     for name in names:
-        f = _name_local_direction(idx.func(G + "::" + name))
+        f0 = idx.func(G + "::" + name)
+        # private one-expression helpers of the module (e.g. a shared `direction in the local frame`) are read as the expression they return
+        import copy as _copy
+        f1 = _copy.copy(f0)
+        f1.node = expand_helpers(idx, f0.module, f0.node, only=lambda c: c.name.startswith("_") and c.module is f0.module)
+        f = _name_local_direction(f1)
         dname, n = _local_direction(f)
         sa = SignAlign(f, dname, n)
         paths = sa.run()
